@@ -456,8 +456,16 @@ def guards_of(target, root, sym):
                         if st is c:
                             break
                         s0 = strip(st)
-                        if s0.get("k") == "If" and s0.get("else") is None and diverges(s0["then"]):
-                            out.append(("if", sym(s0["cond"]), False))
+                        # `if A {exit} else if B {exit}` (no final else): c runs only if !A and !B
+                        chain_conds = []
+                        cur = s0
+                        while cur.get("k") == "If" and diverges(cur["then"]):
+                            chain_conds.append(cur["cond"])
+                            if cur.get("else") is None:
+                                for cc in chain_conds:
+                                    out.append(("if", sym(cc), False))
+                                break
+                            cur = strip(cur["else"])
                 if k == "If":
                     if c is p.get("then"):
                         for a in conj(sym(p["cond"])):
